@@ -131,6 +131,10 @@ class _MetaPyTree(type):
         finally:
             if not was_flattening:
                 clear_treeflatten_memo()
+        # The `is_leaf` checks made whilst flattening may have failed and rolled back,
+        # which *replaces* the memo dictionaries (e.g. a `PyTree[...]` member of a
+        # `Union` leaf type that rejects a subtree). Bind into the live one.
+        _, _, pytree_memo, _ = get_shape_memo()
         if cls.structure is not None:
             if cls.structure.isidentifier():
                 try:
